@@ -1477,6 +1477,178 @@ func concurrentCases(rng *hx.Rng, rounds, k int) {
 	}
 }
 
+// historyCases: unlock-state histories on ONE KeyStore: random sequences over Unlock, TimedUnlock (long / short), Lock,
+// wrong-passphrase Unlock / TimedUnlock, SignHash, SignTx, SignHashWithPassphrase, Update, Export.  A ghost state
+// (locked | unlocked indefinitely | unlocked with expiry, current passphrase) is tracked; after every Sign*: success must
+// recover to the account's address AND be byte-equal to the signature made with the original ECDSA key (RFC 6979:
+// deterministic); a locked account must answer ErrLocked.
+func historyCases(rng *hx.Rng, n, steps int) {
+	for i := 0; i < n; i++ {
+		dir := newDir()
+		ks := keystore.NewKeyStore(dir, 2, 1)
+		scalar := genScalar(rng, i%4)
+		priv := crypto.ToECDSAUnsafe(scalar)
+		_, addr := addrOfScalar(scalar)
+		hexAddr := hex.EncodeToString(addr[:])
+		pw := genPass(rng, 5)
+		acc, err := ks.ImportECDSA(crypto.ToECDSAUnsafe(scalar), pw)
+		if err != nil {
+			panic(err)
+		}
+		state := "locked" // locked | indefinite | timed
+		var hist []string
+		in := func() map[string]interface{} {
+			return map[string]interface{}{"key": hex.EncodeToString(scalar), "account": hexAddr, "history": strings.Join(hist, "; "), "passphrase-now": pw}
+		}
+		bad := func(kind, what, detail string) {
+			violate(kind, "unlock history: "+what, in(), detail+" after ["+strings.Join(hist, "; ")+"]")
+		}
+		wrong := func() string { return nearMiss(rng, pw, false)[0] }
+		checkSign := func() {
+			h := crypto.Keccak256([]byte(fmt.Sprint("history ", i, len(hist))))
+			hist = append(hist, "SignHash")
+			run.Current("history SignHash")
+			sig, err := ks.SignHash(acc, h)
+			want, _ := crypto.Sign(h, priv)
+			switch {
+			case state == "locked":
+				if err != keystore.ErrLocked {
+					bad("flow", "SignHash on a locked account", fmt.Sprintf("err = %v (want ErrLocked)", err))
+				}
+			case err != nil:
+				bad("flow", "SignHash on an unlocked account fails", err.Error())
+			default:
+				pub, perr := crypto.SigToPub(h, sig)
+				if perr != nil || hex.EncodeToString(crypto.Keccak256(pub.SerializeUncompressed()[1:])[12:]) != hexAddr {
+					bad("signer-mismatch", "SignHash does not sign with the account's key", fmt.Sprintf("signature %x does not recover to %s (%v)", sig, hexAddr, perr))
+				} else if string(sig) != string(want) {
+					bad("signer-mismatch", "SignHash signature differs from the stored key's", fmt.Sprintf("%x vs %x", sig, want))
+				}
+			}
+			run.Count("history:SignHash:" + state)
+		}
+		checkSignTx := func() {
+			chain := big.NewInt(int64(1 + rng.Intn(1000)))
+			tx := types.NewTransaction(uint64(len(hist)), common.Address{2}, big.NewInt(3), 21000, big.NewInt(1), nil)
+			hist = append(hist, "SignTx")
+			run.Current("history SignTx")
+			stx, err := ks.SignTx(acc, tx, chain)
+			switch {
+			case state == "locked":
+				if err != keystore.ErrLocked {
+					bad("flow", "SignTx on a locked account", fmt.Sprintf("err = %v (want ErrLocked)", err))
+				}
+			case err != nil:
+				bad("signer-mismatch", "SignTx on an unlocked account fails", err.Error()) // (SignTx's own sender check)
+			default:
+				want, _ := types.SignTx(tx, types.NewEIP155Signer(chain), priv)
+				if from, e := types.Sender(types.NewEIP155Signer(chain), stx); e != nil || from != addr {
+					bad("signer-mismatch", "SignTx does not sign with the account's key", fmt.Sprintf("sender %x err %v", from, e))
+				} else if want == nil || stx.Hash() != want.Hash() {
+					bad("signer-mismatch", "SignTx signature differs from the stored key's", "transaction hashes differ")
+				}
+			}
+			run.Count("history:SignTx:" + state)
+		}
+		for st := 0; st < steps; st++ {
+			switch op := rng.Intn(12); op {
+			case 0, 1: // Unlock
+				hist = append(hist, "Unlock")
+				run.Current("history Unlock")
+				if err := ks.Unlock(acc, pw); err != nil {
+					bad("roundtrip", "Unlock with the right passphrase fails", err.Error())
+				} else {
+					state = "indefinite"
+				}
+			case 2: // TimedUnlock, long
+				hist = append(hist, "TimedUnlock(1h)")
+				if err := ks.TimedUnlock(acc, pw, time.Hour); err != nil {
+					bad("roundtrip", "TimedUnlock with the right passphrase fails", err.Error())
+				} else if state != "indefinite" {
+					state = "timed"
+				}
+			case 3: // TimedUnlock, short: the account locks itself again (only from a state that can expire)
+				if state == "indefinite" {
+					hist = append(hist, "TimedUnlock(20ms)")
+					if err := ks.TimedUnlock(acc, pw, 20*time.Millisecond); err != nil {
+						bad("roundtrip", "TimedUnlock with the right passphrase fails", err.Error())
+					}
+					continue // stays unlocked indefinitely
+				}
+				hist = append(hist, "TimedUnlock(20ms)+wait")
+				if err := ks.TimedUnlock(acc, pw, 20*time.Millisecond); err != nil {
+					bad("roundtrip", "TimedUnlock with the right passphrase fails", err.Error())
+					continue
+				}
+				locked := false
+				for w := 0; w < 300 && !locked; w++ {
+					time.Sleep(10 * time.Millisecond)
+					_, err := ks.SignHash(acc, signHash)
+					locked = err == keystore.ErrLocked
+				}
+				if !locked {
+					run.Count("history:expiry-not-observed-within-3s")
+					ks.Lock(acc.Address)
+				}
+				state = "locked"
+			case 4:
+				hist = append(hist, "Lock")
+				ks.Lock(acc.Address)
+				state = "locked"
+			case 5: // wrong passphrase
+				w := wrong()
+				hist = append(hist, "Unlock(wrong)")
+				if err := ks.Unlock(acc, w); err == nil {
+					bad("wrong-pass-accepted", "Unlock with another passphrase", "succeeded")
+				}
+				if err := ks.TimedUnlock(acc, w, time.Hour); err == nil {
+					bad("wrong-pass-accepted", "TimedUnlock with another passphrase", "succeeded")
+				}
+			case 6, 7:
+				checkSign()
+			case 8:
+				checkSignTx()
+			case 9: // SignHashWithPassphrase
+				hist = append(hist, "SignHashWithPassphrase")
+				h := crypto.Keccak256([]byte(fmt.Sprint("hwp ", i, st)))
+				want, _ := crypto.Sign(h, priv)
+				if sig, err := ks.SignHashWithPassphrase(acc, pw, h); err != nil || string(sig) != string(want) {
+					bad("signer-mismatch", "SignHashWithPassphrase differs from the stored key's signature", fmt.Sprintf("err %v", err))
+				}
+				if _, err := ks.SignHashWithPassphrase(acc, wrong(), h); err == nil {
+					bad("wrong-pass-accepted", "SignHashWithPassphrase with another passphrase", "succeeded")
+				}
+			case 10: // Update
+				np := genPass(rng, 1+rng.Intn(5))
+				hist = append(hist, "Update")
+				if err := ks.Update(acc, wrong(), np); err == nil {
+					bad("wrong-pass-accepted", "Update with another passphrase", "succeeded")
+				}
+				if err := ks.Update(acc, pw, np); err != nil {
+					bad("roundtrip", "Update with the right passphrase fails", err.Error())
+				} else {
+					pw = np
+				}
+			case 11: // Export
+				hist = append(hist, "Export")
+				if js, err := ks.Export(acc, pw, "x"); err != nil {
+					bad("roundtrip", "Export with the right passphrase fails", err.Error())
+				} else if out := decryptKey(js, "x"); out != "ok "+hex.EncodeToString(scalar)+" "+hexAddr {
+					bad("roundtrip", "Export does not carry the stored key", out)
+				}
+			}
+			// a signature right after every state-changing operation
+			if rng.Intn(2) == 0 {
+				checkSign()
+			}
+		}
+		checkSign()
+		checkSignTx()
+		os.RemoveAll(dir)
+		run.Count("history")
+	}
+}
+
 // testVectors: the repo's own key-file vectors (testdata/testkeystore/v3_test_vector.json), incl. the 31- and 30-byte keys.
 func testVectors(thorough bool) {
 	repo := os.Getenv("VERIF_REPO")
@@ -1620,6 +1792,11 @@ func main() {
 	if thorough {
 		nupd, nconc = 20, 25
 	}
+	nh := 25
+	if thorough {
+		nh = 1500
+	}
+	historyCases(rng.Fork(10), nh, 14)
 	updateCases(rng.Fork(8), nupd, thorough)
 	concurrentCases(rng.Fork(9), nconc, 6)
 	run.Notes["t_flows_s"] = time.Since(t0).Seconds()
